@@ -259,8 +259,10 @@ class Cluster:
             op = self.do_disconnect()
         elif r < 0.5:
             op = self.do_client_end()
-        elif r < 0.58:
+        elif r < 0.56:
             op = self.do_acks()
+        elif r < 0.6:
+            op = self.do_ack_then_disconnect()
         else:
             op = self.do_emit()
         if self.failed:
@@ -349,12 +351,12 @@ class Cluster:
                                 n0 if len(self.chan.log) > n0 else None, g))
         self.ctx.count('room_ops')
 
-    def do_disconnect(self):
+    def do_disconnect(self, target=None, via=None):
         rng = self.rng
         if self.delayed:
             self.settle_membership()
-        sid, ns = self.some_sid(0.95)
-        g = rng.randrange(self.nh)
+        sid, ns = target or self.some_sid(0.95)
+        g = rng.randrange(self.nh) if via is None else via
         self.cur_op = ('sdisc', sid, ns, None)
         n0 = len(self.chan.log)
         try:
@@ -372,6 +374,34 @@ class Cluster:
         self.snapshot()
         self.member_ops.append((self.clock, 'sdisc', sid, ns, None,
                                 n0 if len(self.chan.log) > n0 else None, g))
+
+    def do_ack_then_disconnect(self):
+        """The client acknowledges an emit issued on another host and is then
+        disconnected through the issuing host (or a third one) while the
+        acknowledgement is still travelling on the channel: a single server
+        would have run the callback before the disconnect, so the callback
+        still runs exactly once."""
+        cands = []
+        for tok, info in sorted(self.emits.items()):
+            if not info['cb'] or info.get('acked') or \
+                    info['via'] == self.nh:
+                continue
+            for (h, T, ns, sid, clk, pid) in info['got']:
+                if pid is not None and sid in self.owner and \
+                        h != info['via']:
+                    cands.append((tok, info, sid, ns))
+        if not cands:
+            return None
+        tok, info, sid, ns = self.rng.choice(cands)
+        self.do_acks()
+        if self.failed or not info.get('acked'):
+            return None
+        others = [g for g in range(self.nh)
+                  if g not in (info['via'], self.owner[sid][0])]
+        via = info['via'] if not others or self.rng.random() < 0.6 \
+            else self.rng.choice(others)
+        self.ctx.count('acks_followed_by_disconnect')
+        return self.do_disconnect(target=(sid, ns), via=via)
 
     def do_client_end(self):
         rng = self.rng
